@@ -772,6 +772,13 @@ class CeiloChunk(AbstractChunk):
             raise AmpycloudError('Slicing not yet done. You cannot find groups without ' +
                                  'finding slices first !')
 
+        # Re-grouping would discard the layering information: refuse *before* touching anything.
+        # (The same check sits in _setup_sligrolay_pdf(), but it is reached only after the group
+        # assignment of the hits has been overwritten.)
+        if self._layers is not None:
+            raise AmpycloudError('Layering already done. If you look for groups again now, you will ' +
+                                 'loose the layering information !')
+
         # First, make sure that we can keep track of the isolation status of slices.
         self._slices['isolated'] = None
 
